@@ -132,7 +132,11 @@ fn main() {
             let from: u64 = arg_after(&args, "--from").and_then(|s| s.parse().ok()).unwrap_or(0);
             let only: Option<u64> = arg_after(&args, "--only").and_then(|s| s.parse().ok());
             let mut w = Worker::from_args(tier, i, n, from, only);
-            (p.worker)(&mut w);
+            // a panic outside a guarded call is a defect of the harness: say where, then die
+            if std::panic::catch_unwind(std::panic::AssertUnwindSafe(|| (p.worker)(&mut w))).is_err() {
+                eprintln!("harness panic in worker {} of {}: {}", shard, p.id, last_panic());
+                std::process::exit(101);
+            }
             w.done();
         }
         "run" => {
